@@ -151,6 +151,17 @@ func (c *VerifCtl) StepPeer(msg ConsensusMessage, peerKey string) {
 	c.cs.receiveRoutine(0)
 }
 
+// StepQueued runs the receive routine for one message that is already waiting in the peer
+// queue (put there by ConsensusReactor.Receive); false when the queue is empty.
+func (c *VerifCtl) StepQueued() bool {
+	if len(c.cs.peerMsgQueue) == 0 {
+		return false
+	}
+	c.grant()
+	c.cs.receiveRoutine(0)
+	return true
+}
+
 // StepInternal re-injects one of the node's own messages (taken earlier with DrainInternal).
 func (c *VerifCtl) StepInternal(msg ConsensusMessage) {
 	c.cs.internalMsgQueue <- msgInfo{msg, ""}
